@@ -17,7 +17,7 @@ EXPLANATION = (
 TRUSTED = _c02.TRUSTED + ["model of CPython slot_tp_hash: a __hash__ result outside Py_ssize_t is replaced by hash(int); -1 -> -2",
                           "documented numeric hash definition (sys.hash_info: modulus 2^61-1, imag multiplier 1000003, width 64)"]
 ASSUMPTIONS = _c02.ASSUMPTIONS + ["hash obligations: binary exponent concrete per obligation (grid), mantissa symbolic"]
-BUDGET = {'quick': dict(ob_deadline_s=100, total_s=150), 'thorough': dict(ob_deadline_s=900, total_s=1800)}
+BUDGET = {'quick': dict(ob_deadline_s=100, total_s=150), 'thorough': dict(ob_deadline_s=600, total_s=1500)}
 BOUNDS = {'quick': 'comparison operands up to 30 bits, offsets -40..40, ints to 62 bits (longer than the context precision), floats incl. subnormal and huge exponents; hash mantissas up to 64 bits, exponents -62..130',
           'thorough': 'comparison operands up to 120 bits; hash exponents to -130 and 200-bit mantissas'}
 
